@@ -97,6 +97,17 @@ pub fn structured_payloads() -> Vec<Vec<u8>> {
     for t in [&b":"[..], b"\r\n", b"\n", b"\r", b":\r\n", b":00000001FF\r\n", b":00000001FF", b"0123456789ABCDEF", b"::", b"\r\n\r\n"] {
         v.push(t.to_vec());
     }
+    // payloads that begin with the numeric header their own frame will carry at offsets 0x0010 / 0x0000 / 0xFFF0
+    // (length, address high, address low, type 0): the header then appears twice in a row on the wire
+    for len in [4usize, 6, 16, 255] {
+        for off in [0x0010u16, 0x0000, 0xFFF0] {
+            let mut d = vec![len as u8, (off >> 8) as u8, off as u8, 0x00];
+            while d.len() < len {
+                d.push((d.len() * 5) as u8);
+            }
+            v.push(d);
+        }
+    }
     v
 }
 
@@ -353,12 +364,14 @@ fn dec_case(out: &mut Out, bs: &[u8], nontrivial: bool, prop: &str) -> usize {
     i
 }
 
-pub const STRUCT_ALPHA: [u8; 19] = [
+pub const STRUCT_ALPHA: [u8; 23] = [
     b':', b'0', b'1', b'9', b'A', b'F', b'a', b'f', b'/', b'@', b'G', b'g', b'`', b'\r', b'\n', 0x00, 0xFF, b'5', b'c',
+    // characters an integer parser may take for part of a number: signs, a blank, an underscore
+    b'+', b'-', b' ', b'_',
 ];
 
 fn c03(thorough: bool, rng: &mut Rng, out: &mut Out) {
-    out.rule = "(i) every string of length <= L over the 19-symbol structural alphabet (L=3 quick, 4 thorough); (ii) the same strings spliced as prefix / suffix / infix into seed encodings; (iii) single substitutions / deletions / duplications of seed encodings; (iv) random byte strings <= 600 bytes and random multi-edits of valid encodings; (v) 26 multi-byte UTF-8 look-alikes (non-ASCII decimal digits, fullwidth hex letters / colon, Unicode separators, BOM) substituted for one or two bytes at, or inserted at, every position of the seed encodings; non-trivial = the string starts with ':' and is at least 11 bytes long (reaches past the first structural rejection); distinct = distinct case line".into();
+    out.rule = "(i) every string of length <= L over the 23-symbol structural alphabet (L=3 quick, 4 thorough); (ii) the same strings spliced as prefix / suffix / infix into seed encodings; (iii) single substitutions / deletions / duplications of seed encodings; (iv) random byte strings <= 600 bytes and random multi-edits of valid encodings; (v) 26 multi-byte UTF-8 look-alikes (non-ASCII decimal digits, fullwidth hex letters / colon, Unicode separators, BOM) substituted for one or two bytes at, or inserted at, every position of the seed encodings; non-trivial = the string starts with ':' and is at least 11 bytes long (reaches past the first structural rejection); distinct = distinct case line".into();
     out.exhaustive_note = "(i) is enumerated completely".into();
     let maxlen = if thorough { 4 } else { 3 };
     // (i)
@@ -378,6 +391,54 @@ fn c03(thorough: bool, rng: &mut Rng, out: &mut Out) {
     }
     for s in &all {
         let _ = dec_case(out, s, false, "C03");
+    }
+    // (i-b) every hex-digit position of the seed lines replaced by a sign or a blank (`+F` must not be read as 0F)
+    for (a, t, d) in [(0x7Fu16, 2u8, vec![0xFFu8]), (0x0003, 0x03, vec![0xA1]), (0x0010, 0, vec![0x01, 0x02, 0x03, 0x04])] {
+        let good = indep_enc(a, t, &d);
+        for pos in 1..good.len() {
+            for c in [b'+', b'-', b' ', b'_', b'x', b'X'] {
+                let mut r = good.clone();
+                r[pos] = c;
+                out.stat("dec.sign-or-blank-in-a-digit-slot");
+                let _ = dec_case(out, &r, true, "C03");
+            }
+        }
+    }
+    // (i-c) lines far longer than any frame, made of ':' and hex pairs only, with every kind of tail: whatever follows
+    // the last pair other than nothing or one CRLF makes the line malformed text (not a length mismatch)
+    for pairs in [262usize, 300, 600] {
+        let mut body = vec![b':'];
+        for i in 0..pairs {
+            body.extend_from_slice(format!("{:02X}", (i * 7 + 3) as u8).as_bytes());
+        }
+        for tail in [&b""[..], b"\r\n", b"\n", b"\r", b" ", b"\t", b"\r\n\r\n", b" \r\n", b"\r\n ", b"  ", b"\x0B", b"\x0C"] {
+            let mut l = body.clone();
+            l.extend_from_slice(tail);
+            out.stat("dec.oversized-line-tail");
+            let _ = dec_case(out, &l, true, "C03");
+        }
+    }
+    // (i-d) a declared length of FF over MORE than 255 data pairs whose surplus sums to zero, so that the checksum is
+    // right for the first 255 bytes: the declared length disagrees with the data — never accepted
+    for extra in [1usize, 2, 16, 256] {
+        for (a, t) in [(0x0010u16, 0u8), (0xFFFF, 0x42)] {
+            let d: Vec<u8> = (0..255usize).map(|i| (i * 3 + 1) as u8).collect();
+            let good = indep_enc(a, t, &d);
+            // good = ':' + 2*(4+255) digits + 2 checksum digits
+            let mut l = good[..good.len() - 2].to_vec();
+            for _ in 0..extra {
+                l.extend_from_slice(b"00");
+            }
+            l.extend_from_slice(&good[good.len() - 2..]);
+            for nl in [false, true] {
+                let mut x = l.clone();
+                if nl {
+                    x.extend_from_slice(b"\r\n");
+                }
+                out.stat("dec.surplus-data-summing-to-zero");
+                let _ = dec_case(out, &x, true, "C03");
+            }
+        }
     }
     // (i') lines whose numeric bytes have the largest (and smallest) possible sums: 255 data bytes of FF under an
     // all-ones header add up to 66 045 — past 16 bits — so a checksum accumulated in anything but a wrapping byte shows;
@@ -650,6 +711,24 @@ fn faults(w: &[u8], full: bool, rng: &mut Rng) -> Vec<(String, Vec<u8>)> {
 
 fn c02(thorough: bool, rng: &mut Rng, out: &mut Out) {
     same_sum_pairs("C02", out);
+    // a declared length of FF over more than 255 data pairs whose surplus sums to zero (so that the checksum is right
+    // for the first 255 bytes): the declared length disagrees with the data
+    for extra in [1usize, 2, 16, 256] {
+        for (a, t) in [(0x0010u16, 0u8), (0xFFFF, 0x42)] {
+            let d: Vec<u8> = (0..255usize).map(|i| (i * 3 + 1) as u8).collect();
+            let good = indep_enc(a, t, &d);
+            let mut l = good[..good.len() - 2].to_vec();
+            for _ in 0..extra {
+                l.extend_from_slice(b"00");
+            }
+            l.extend_from_slice(&good[good.len() - 2..]);
+            let i = out.case(format!("dec {}", hex_of(&l)), true);
+            out.stat("dec.surplus-data-summing-to-zero");
+            if out.impls[i].starts_with("ok ") {
+                out.fail(i, format!("C02 a line declaring 255 data bytes and carrying {} was accepted", 255 + extra));
+            }
+        }
+    }
     out.rule = "for each seed frame and both encodings: every position x replacement byte (all 256 on the full-substitution seeds, 35 structural+random values otherwise), every single deletion, duplication, adjacent swap of unequal characters and proper prefix; plus frames with a wrong length field or wrong checksum; non-trivial = every fault case (each is a damaged valid frame); distinct = distinct case line".into();
     out.exhaustive_note = "the fault set is enumerated completely per seed frame; seed frames are sampled".into();
     let mut seeds: Vec<(u16, u8, Vec<u8>)> = vec![
@@ -1271,6 +1350,25 @@ fn c19(thorough: bool, rng: &mut Rng, out: &mut Out) {
         }
     }
     vsign::known_header_variants("C19", out);
+    // the same block again after the sign went back to blank by Goodbye (no reset handshake): configured afresh
+    for (ti, t) in TYPES.iter().enumerate() {
+        let (w, h) = t.dimensions();
+        let page = Page::new(PageId(4), w, h);
+        let blk = to_hex(t.to_bytes());
+        let mut line = format!("vbus M,0005 RO,0005,0 SD,0000,{} CS,0001 QS,0005 GB,0005 QS,0005 RO,0005,0 SD,0000,{} CS,0001 QS,0005 RO,0005,1", blk, blk);
+        let mut n = 0;
+        for (ci, c) in page.as_bytes().chunks(16).enumerate() {
+            line.push_str(&format!(" SD,{:04X},{}", ci * 16, to_hex(c)));
+            n += 1;
+        }
+        line.push_str(&format!(" CS,{:04X} QS,0005", n));
+        let v = out.case(line, true);
+        out.stat("vsign.same-block-after-goodbye");
+        let last = out.impls[v].rsplit(' ').next().unwrap_or("").to_string();
+        if !last.contains(&format!("|{}/{}/1/", state_idx(flipdot_core::State::PixelsReceived), ti)) {
+            out.fail(v, format!("C19 configured with the {:?} block, shut down, configured with the same block again: the sign does not hold one {}x{} page: {}", t, w, h, last));
+        }
+    }
     // blocks that keep a type's code AND its geometry bytes but carry extreme values everywhere else (any plausibility
     // arithmetic over the remaining fields must not overflow): decoded, and digested by a virtual sign
     for t in TYPES {
